@@ -105,7 +105,29 @@ def check_offsets(ctx):
         f = repo.func(q)
         tl = f.params[0]
         loops = [s for s in f.node.body if isinstance(s, ast.For)]
-        ctx.need(len(loops) == 1, f'{f.short}: expected one top-level for loop')
+        if not loops:
+            # worklist form: the scan loop sits in `while W: L = W.pop(); ...`; the offset must then be reset per list
+            loops = [s for s in ast.walk(f.node) if isinstance(s, ast.For) and isinstance(s.iter, ast.Call) and is_name(s.iter.func, 'enumerate')]
+            if len(loops) == 1:
+                names = [n.id for n in ast.walk(loops[0].iter) if isinstance(n, ast.Name) and n.id not in ('enumerate', 'list', 'tuple')]
+                tl = names[0] if names else tl
+                # the sibling statements of the scan loop must reset the offset (an offset carried over from the previous list is wrong)
+                def siblings(stmts):
+                    if any(x is loops[0] for x in stmts):
+                        return stmts
+                    for x in stmts:
+                        for fld in ('body', 'orelse'):
+                            sub = getattr(x, fld, None)
+                            if isinstance(sub, list) and sub and isinstance(sub[0], ast.stmt):
+                                r = siblings(sub)
+                                if r is not None:
+                                    return r
+                    return None
+                sib = siblings(f.node.body) or []
+                resets = [x for x in sib if isinstance(x, ast.Assign) and isinstance(x.value, ast.Constant) and x.value.value == 0]
+                ctx.ob('R3.4', f'{f.name}:offset-per-list', f'{f.mod.relpath}:{loops[0].lineno}',
+                       'the running offset starts at 0 for every token list that is scanned', bool(resets), 'no `offset = 0` in the per-list block')
+        ctx.need(len(loops) == 1, f'{f.short}: expected one scan loop')
         lp = loops[0]
         loc = f'{f.mod.relpath}:{lp.lineno}'
         it = lp.iter
@@ -174,7 +196,9 @@ def while_token_passes(ctx):
             continue
         for s in f.node.body:
             if isinstance(s, ast.While) and any(isinstance(c, ast.Call) and isinstance(c.func, ast.Attribute) and c.func.attr == 'group_tokens'
-                                                for c in ast.walk(s)):
+                                                for c in ast.walk(s)) \
+                    and any(isinstance(c, ast.Call) and isinstance(c.func, ast.Attribute) and c.func.attr in ('token_next_by', 'token_next')
+                            for c in ast.walk(f.node)):
                 out.append((f, s))
     return out
 
